@@ -14,6 +14,9 @@ structure St where
   vf : VFile := {}
   sys : Sys := {}
   spec : Spec.State := {}
+  -- C05: several databases sharing the process-global sequence counter
+  gcounter : Nat := 0
+  mdbs : List (Nat × Sys × Spec.State × Bool) := []     -- db id ↦ (model, spec, open?)
 
 def showVer (v : Option Ver) : String :=
   match v with
@@ -152,6 +155,53 @@ def stepSys (st : St) (args : List String) : St × String :=
       let (sp, so) := Spec.step st.spec op
       ({ st with sys := m, spec := sp }, showOut mo ++ "\t" ++ showOut so)
 
+def mdbGet (st : St) (d : Nat) : Sys × Spec.State × Bool :=
+  match st.mdbs.find? (·.1 = d) with
+  | some e => e.2
+  | none => ({}, {}, false)
+
+def mdbSet (st : St) (d : Nat) (e : Sys × Spec.State × Bool) : St :=
+  if st.mdbs.any (·.1 = d) then { st with mdbs := st.mdbs.map (fun x => if x.1 = d then (d, e) else x) }
+  else { st with mdbs := st.mdbs ++ [(d, e)] }
+
+/-- multi-database sub-protocol (`mdb …`): every database runs with the process-global counter -/
+def stepMdb (st : St) (args : List String) : St × String :=
+  match args with
+  | ["new"] => ({ st with gcounter := 0, mdbs := [] }, "ok\tok")
+  | ["restart"] =>    -- process exit: counter starts from 0, every database is closed
+    ({ st with gcounter := 0, mdbs := st.mdbs.map (fun x => (x.1, x.2.1, x.2.2.1, false)) }, "ok\tok")
+  | d :: rest =>
+    match d.toNat? with
+    | none => (st, "bad-op\tbad-op")
+    | some d =>
+      let (m, sp, isOpen) := mdbGet st d
+      match rest with
+      | ["open"] =>
+        if isOpen then (st, "bad-op\tbad-op") else
+        -- Load: rebuild from the records with the process counter; open transactions are gone
+        let m0 : Sys := { m with counter := st.gcounter }
+        let (m1, _) := m0.reopen false
+        let sp0 : Spec.State := { sp with clock := st.gcounter }
+        let (sp1, _) := Spec.reopen sp0 false
+        -- the spec's clock follows the process counter (only the order of stamps is observable)
+        let sp2 : Spec.State := { sp1 with clock := m1.counter }
+        (mdbSet { st with gcounter := m1.counter } d (m1, sp2, true), "ok\tok")
+      | ["close"] =>
+        if !isOpen then (st, "bad-op\tbad-op") else
+        let (m1, _) := m.drain
+        (mdbSet st d (m1, sp, false), "ok\tok")
+      | _ =>
+        if !isOpen then (st, "bad-op\tbad-op") else
+        match parseOp rest with
+        | none => (st, "bad-op\tbad-op")
+        | some op =>
+          let m0 : Sys := { m with counter := st.gcounter }
+          let sp0 : Spec.State := { sp with clock := st.gcounter }
+          let (m1, mo) := m0.step op
+          let (sp1, so) := Spec.step sp0 op
+          (mdbSet { st with gcounter := m1.counter } d (m1, sp1, true), showOut mo ++ "\t" ++ showOut so)
+  | _ => (st, "bad-op\tbad-op")
+
 def step (st : St) (line : String) : St × String :=
   match (line.trimAscii.toString.splitOn " ").filter (· ≠ "") with
   | "vf" :: args => let r := stepVF st.vf args; ({ st with vf := r.1 }, r.2)
@@ -159,6 +209,7 @@ def step (st : St) (line : String) : St × String :=
   | "dec" :: args => (st, stepCodec ("dec" :: args))
   | "cfg" :: args => (st, stepCfg args)
   | "sys" :: args => stepSys st args
+  | "mdb" :: args => stepMdb st args
   | [] => (st, "")
   | _ => (st, "bad-op")
 
